@@ -1,0 +1,12 @@
+//go:build verif
+
+package transport
+
+import "hop.computer/hop/certs"
+
+// VerifHandleWithClientLeaf returns a bare Handle that reports leaf as the certificate the client
+// presented (what FetchClientLeaf returns after a completed handshake). For the verification
+// harness only; the handle is not connected to anything.
+func VerifHandleWithClientLeaf(leaf *certs.Certificate) *Handle {
+	return &Handle{clientLeaf: leaf}
+}
